@@ -21,6 +21,7 @@ type c11 struct{}
 func init() { Register(c11{}) }
 
 type c11Params struct {
+	Extra int `json:"extra,omitempty"` // big: keys stored beyond the capacity
 	Mode  string `json:"mode"`  // seq | conc | conn
 	Stack string `json:"stack"` // which package's cache
 	Cap   int    `json:"cap"`
@@ -75,6 +76,13 @@ func drawC11(src *vs.Src) *c11Params {
 		p.Mode = "conc"
 	default:
 		p.Mode = "conn"
+	}
+	if p.Mode == "seq" && src.Bool(1, 40) {
+		// a large requested capacity: Cap+Extra distinct keys are stored; exactly the Extra oldest may be gone
+		p.Mode = "big"
+		p.Cap = pickInt(src, []int{1024, 1025, 1500, 3000, 5000})
+		p.Extra = src.Intn(6)
+		return p
 	}
 	switch p.Mode {
 	case "seq", "conc":
@@ -328,6 +336,8 @@ func (c11) Run(c *Case, src *vs.Src) *Result {
 	pj, _ := json.Marshal(p)
 	r.Key = hashKey(string(pj))
 	switch p.Mode {
+	case "big":
+		c11Big(p, r)
 	case "seq":
 		c11Seq(p, r)
 	case "conc":
@@ -583,4 +593,49 @@ func c11ParConn(c *Case, src *vs.Src, p *c11Params, r *Result, sigp string, tc t
 	r.Stat("parallel_connections", done)
 	r.Stat("resumed", resumed)
 	r.Trivial = done < 2
+}
+
+// c11Big: a cache of a large requested capacity keeps that many entries.
+func c11Big(p *c11Params, r *Result) {
+	sigp := "C11 large-capacity"
+	key := func(i int) string { return fmt.Sprintf("key-%d", i) }
+	id := func(i int) []byte { return []byte{byte(i >> 8), byte(i)} }
+	var put func(i int)
+	var get func(i int) bool
+	if p.Stack == TLCP {
+		cache := tlcp.NewLRUSessionCache(p.Cap)
+		put = func(i int) { cache.Put(key(i), tlcp.VerifNewSession(id(i), 0x0101, 0xe053, c11Master(i&0xff))) }
+		get = func(i int) bool { s, ok := cache.Get(key(i)); return ok && s != nil }
+	} else {
+		cache := dtlcp.NewLRUSessionCache(p.Cap)
+		put = func(i int) { cache.Put(key(i), dtlcp.VerifNewSession(id(i), 0x0101, 0xe053, c11Master(i&0xff))) }
+		get = func(i int) bool { s, ok := cache.Get(key(i)); return ok && s != nil }
+	}
+	n := p.Cap + p.Extra
+	for i := 0; i < n; i++ {
+		put(i)
+	}
+	missing, extra := 0, 0
+	first := -1
+	for i := p.Extra; i < n; i++ {
+		if !get(i) {
+			missing++
+			if first < 0 {
+				first = i
+			}
+		}
+	}
+	for i := 0; i < p.Extra; i++ {
+		if get(i) {
+			extra++
+		}
+	}
+	if missing > 0 {
+		r.Violate("lru-mismatch", sigp+" entries-missing", "a cache created with capacity %d was given %d distinct keys: %d of the %d most recently stored ones are gone (first: #%d)", p.Cap, n, missing, p.Cap, first)
+	}
+	if extra > 0 {
+		r.Violate("lru-mismatch", sigp+" above-capacity", "a cache created with capacity %d still holds %d of the %d oldest of %d keys", p.Cap, extra, p.Extra, n)
+	}
+	r.Stat("large_capacity_cases", 1)
+	r.Trivial = p.Extra == 0
 }
